@@ -258,4 +258,44 @@ def proxyServe (cs : Bool) (t : Table) (p : Bytes) (data : Bytes) (chunked : Boo
   if !chunked && data.isEmpty then 0
   else proxyStatus (serveBody cs t p (wireBody data) (List.replicate (data.length + 2) 32768))
 
+/-! ### the wire spelling of the request path
+
+net/http builds `r.URL` from the request target with `url.ParseRequestURI`: `URL.Path` is
+`unescape(target, encodePath)` and `URL.RawPath` keeps the spelling.  `Limit.ServeHTTP` matches the
+scopes against `r.URL.Path`, the decoded form.  (Targets here are origin-form without a query.) -/
+
+def isHexDigit (c : UInt8) : Bool := (48 ≤ c && c ≤ 57) || (97 ≤ c && c ≤ 102) || (65 ≤ c && c ≤ 70)
+
+/-- net/url `unhex` -/
+def hexVal (c : UInt8) : Nat :=
+  if 48 ≤ c && c ≤ 57 then c.toNat - 48 else if 97 ≤ c && c ≤ 102 then c.toNat - 87 else c.toNat - 55
+
+def hexDigit (upper : Bool) (n : Nat) : UInt8 :=
+  if n < 10 then UInt8.ofNat (48 + n) else UInt8.ofNat ((if upper then 55 else 87) + n)
+
+/-- net/url `unescape(s, encodePath)`: `none` on a malformed %-escape (net/http answers 400, no
+handler runs) -/
+def unescapePath : Bytes → Option Bytes
+  | [] => some []
+  | 37 :: a :: b :: t =>
+    if isHexDigit a && isHexDigit b then (unescapePath t).map (UInt8.ofNat (hexVal a * 16 + hexVal b) :: ·) else none
+  | 37 :: _ => none
+  | c :: t => (unescapePath t).map (c :: ·)
+
+/-- A spelling of the path `p` on the wire: per byte, `none` = written as it is, `some upper` =
+percent-encoded with upper/lower-case hex digits (a literal `%` is always encoded; when the choices
+run out the rest is written as it is). -/
+def spell : List (Option Bool) → Bytes → Bytes
+  | _, [] => []
+  | ch, c :: t =>
+    let o := if c = 37 then some ((ch.head?.getD none).getD true) else ch.head?.getD none
+    match o with
+    | some up => 37 :: hexDigit up (c.toNat / 16) :: hexDigit up (c.toNat % 16) :: spell ch.tail t
+    | none => c :: spell ch.tail t
+
+/-- What the next handler sees for a request whose request line carries `target`: `none` = the
+target is not a path, the server refuses the request before any handler. -/
+def serveTarget (cs : Bool) (t : Table) (target : Bytes) (u : Under) (bufs : List Nat) : Option Trace :=
+  (unescapePath target).map (fun p => serveBody cs t p u bufs)
+
 end Casket.Limits
